@@ -139,8 +139,18 @@ func runC20(c *Ctx) {
 		if cfg.tls == "last" {
 			opts = append(opts, tlsOpt)
 		}
-		srv, err := larking.NewServer(fx.Mux, opts...)
+		var srv *http.Server
+		var err error
+		var npn interface{}
+		func() {
+			defer func() { npn = recover() }()
+			srv, err = larking.NewServer(fx.Mux, opts...)
+		}()
 		cfgS := fmt.Sprintf("patterns=%v extras=%v tls=%q", cfg.patterns, cfg.extras, cfg.tls)
+		if npn != nil {
+			c.SpecFail("config", cfgS+" (server number "+fmt.Sprint(ci+1)+" of this process)", fmt.Sprint("panic: ", npn), "a server", "C20/new-server-panics", "NewServer panics for a valid configuration (state shared with servers created earlier in the process?)")
+			continue
+		}
 		if err != nil {
 			c.SpecFail("config", cfgS, err.Error(), "a server", "C20/config-rejected", "a valid configuration is rejected")
 			continue
@@ -258,6 +268,41 @@ func runC20(c *Ctx) {
 			c.Correspond("mount", join("mount", pats, exs, p), classify(got, c20Resp{}), true)
 			if !strings.HasPrefix(got.body, "extra:"+e.name+" ") {
 				c.SpecFail("extra", in, got.String(), "extra:"+e.name, "C20/extra-handler-lost", "a handler added with HTTPHandlerOption does not receive its own pattern")
+			}
+		}
+	}
+	// two servers in one process: neither serves the other's mounts or extra handlers
+	{
+		tag := func(name string) http.Handler {
+			return http.HandlerFunc(func(w http.ResponseWriter, r *http.Request) { fmt.Fprintf(w, "extra:%s %s", name, r.URL.Path) })
+		}
+		var srvA, srvB *http.Server
+		var errA, errB error
+		var pnAB interface{}
+		func() {
+			defer func() { pnAB = recover() }()
+			srvA, errA = larking.NewServer(fx.Mux, larking.MuxHandleOption("/srva"), larking.HTTPHandlerOption("/only-a", tag("a")))
+			srvB, errB = larking.NewServer(fx.Mux, larking.MuxHandleOption("/srvb"), larking.HTTPHandlerOption("/only-b", tag("b")))
+		}()
+		c.Eval("two-servers", "NewServer twice, each with one mount and one extra handler", true)
+		if pnAB != nil || errA != nil || errB != nil {
+			c.SpecFail("two-servers", "NewServer twice, each with one mount and one extra handler", fmt.Sprint(pnAB, errA, errB), "two servers", "C20/two-servers/refused", "a second server cannot be created next to the first")
+		} else {
+			for _, q := range []struct {
+				srv  *http.Server
+				path string
+				own  bool
+			}{{srvA, "/only-a", true}, {srvB, "/only-b", true}, {srvB, "/only-a", false}, {srvA, "/only-b", false}, {srvB, "/srva/c20/ok", false}, {srvA, "/srvb/c20/ok", false}} {
+				got, pn := c20Record(q.srv.Handler, httptest.NewRequest("GET", q.path, nil))
+				name := map[*http.Server]string{srvA: "A", srvB: "B"}[q.srv]
+				in := fmt.Sprintf("server %s: GET %s", name, q.path)
+				c.Eval("two-servers", in, true)
+				served := pn == nil && got.code != 404
+				if q.own && !strings.HasPrefix(got.body, "extra:") {
+					c.SpecFail("two-servers", in, got.String(), "its own extra handler", "C20/extra-handler-lost", "a handler added with HTTPHandlerOption does not receive its own pattern")
+				} else if !q.own && served {
+					c.SpecFail("two-servers", in, got.String(), "404 (not this server's mount or handler)", "C20/two-servers/served-by-the-other", "a server answers a path outside all of its own prefixes and patterns (routes of another server in the process)")
+				}
 			}
 		}
 	}
